@@ -3,6 +3,7 @@ package main
 import (
 	"fmt"
 	"go/ast"
+	"go/parser"
 	"go/types"
 	"sort"
 	"strconv"
@@ -316,6 +317,7 @@ func (ex *Exec) unknownCall(st *State, site ssa.CallInstruction, sig *types.Sign
 	ex.note("call with no contract treated as arbitrary: %s", why)
 	ex.uncontracted[why] = true
 	ex.applyMods(st, site, mods, "call: "+why)
+	ex.flushFrames(st)
 	var rs []Value
 	for i := 0; i < sig.Results().Len(); i++ {
 		rs = append(rs, ex.freshOfType(st, "r", sig.Results().At(i).Type()))
@@ -379,7 +381,44 @@ func (ex *Exec) frameCall(st *State, site ssa.CallInstruction, name, what string
 			}
 		}
 	}
+	// The callee may write this heap although the caller's assigns clause does not list it:
+	// allowed only if every object that existed when the caller was entered keeps its contents
+	// across the call. The obligation is emitted once the callee's postconditions are known
+	// (flushFrames), so that "writes only its fresh argument" style contracts discharge it.
+	srt := st.hsorts[name]
+	if srt == "" {
+		srt = ex.heapSortByName(name)
+	}
+	if ks, _, ok := arrayParts(srt); ok && ks == SInt && !strings.HasPrefix(name, "W$") && !strings.HasPrefix(name, "G!") {
+		ex.pendingFrames = append(ex.pendingFrames, callFrame{site: site, heap: name, sort: srt, before: ex.heap(st, name, srt), what: what})
+		if !ex.deferFrames {
+			// no contract to consult: the write is unconstrained
+		}
+		return
+	}
 	ex.oblige(st, "frame", "", site.(ssa.Instruction), tFalse, what+" may write "+name+", which the assigns clause does not allow")
+}
+
+type callFrame struct {
+	site   ssa.CallInstruction
+	heap   string
+	sort   string
+	before Term
+	what   string
+}
+
+// flushFrames emits the deferred call-frame obligations against the current (post-call) state.
+func (ex *Exec) flushFrames(st *State) {
+	pf := ex.pendingFrames
+	ex.pendingFrames = nil
+	for _, f := range pf {
+		after := ex.heap(st, f.heap, f.sort)
+		goal := mk(SBool, fmt.Sprintf("(forall ((r Int)) (! (=> (< r %s) (= (select %s r) (select %s r))) :pattern ((select %s r))))", st.alloc0.S, after.S, f.before.S, after.S))
+		if after.S == f.before.S {
+			goal = tTrue
+		}
+		ex.oblige(st, "frame", "", f.site.(ssa.Instruction), goal, f.what+" may write "+f.heap+", which the assigns clause does not list: objects that existed at entry must be unchanged")
+	}
 }
 
 // callFuncValue: call through a func-typed value that is not statically known.
@@ -563,7 +602,8 @@ func (ex *Exec) applyContract(st *State, site ssa.CallInstruction, sel string, c
 	// the callee's ghost variables are existential from the caller's point of view
 	for _, g := range con.Ghosts {
 		if _, clash := c.binds[g.Name]; !clash {
-			c.binds[g.Name] = TT{T: ex.fresh("cg_"+g.Name, g.Sort)}
+			gs, gty := ex.ghostSort(c, g.Sort)
+			c.binds[g.Name] = TT{T: ex.fresh("cg_"+g.Name, gs), Ty: gty}
 		}
 	}
 	var siteI ssa.Instruction
@@ -662,6 +702,7 @@ func (ex *Exec) applyContract(st *State, site ssa.CallInstruction, sel string, c
 		c.clause = &con.Ensures[i]
 		st.assume(ex.safeFormula(c, con.Ensures[i].Text))
 	}
+	ex.flushFrames(st)
 	return results
 }
 
@@ -755,4 +796,19 @@ func (ex *Exec) intrinsic(st *State, site *ssa.Call, f *ClosureV, args []Value, 
 		return true
 	}
 	return false
+}
+
+// ghostSort: a ghost may be declared with an SMT sort or with a Go type (e.g. []reflect.Value);
+// the latter is resolved to its sort and keeps the type so that contracts can index it.
+func (ex *Exec) ghostSort(c *SpecCtx, decl string) (string, types.Type) {
+	if strings.ContainsAny(decl, "[.*") && !strings.HasPrefix(decl, "(") {
+		if te, err := parser.ParseExpr(decl); err == nil {
+			var gty types.Type
+			ex.guard(func() { gty = c.resolveType(te) })
+			if gty != nil {
+				return ex.w.sortOf(gty, ex.d), gty
+			}
+		}
+	}
+	return decl, nil
 }
